@@ -29,6 +29,7 @@ def shards(tier):
         out.append({"name": "trees.np.jit.%d" % k, "mode": "jit", "backend": "np", "fn": "trees", "n": 500 if q else 20000})
     out.append({"name": "wide.np.jit", "mode": "jit", "backend": "np", "fn": "wide", "n": 3 if q else 60})
     out.append({"name": "wide.torch", "mode": "jit", "backend": "torch", "fn": "wide", "n": 2 if q else 30})
+    out.append({"name": "forms.torch", "mode": "jit", "backend": "torch", "fn": "trees", "n": 60 if q else 2000, "forms": 1})
     out.append({"name": "forms.np.jit", "mode": "jit", "backend": "np", "fn": "trees", "n": 100 if q else 4000, "forms": 1})
     return out
 
